@@ -271,9 +271,11 @@ def run(chk, replay=None):
                 chk.known(key, "F-2 %s [%d runs; witness %s]" % (known[key]["text"], len(lst), c.cid))
             else:
                 p, msg2 = shrink_and_write(c, msg, key, "finding_%s.case" % key)
-                chk.violation(p, "C04 fails on the implementation (finding F-2, key=%s, see findings/C04.md): %s (%d of %d runs); "
-                                 "Coq: C04_no_stall_current_tree takes its refutation branch for the generated wake-up test"
-                              % (key, msg2, len(lst), len(all_cases)))
+                coq = ("Coq: C04_no_stall_current_tree takes its refutation branch for the generated wake-up test" if has_f2_coq else
+                       "the generated wake-up test itself still wakes before loop() (C04_no_stall_current_tree: theorem branch): the "
+                       "wake-up is lost elsewhere")
+                chk.violation(p, "C04 fails on the implementation (signature of finding F-2, key=%s, see findings/C04.md): %s (%d of %d runs); %s"
+                              % (key, msg2, len(lst), len(all_cases), coq))
     if (corr_bad or not pr["ok"] or not agree) and not plain_bad:
         what, body = [], ""
         if not pr["ok"]:
